@@ -156,9 +156,13 @@ proof fn lemma_step(v: Seq<Value>, k: int)
 //@sub /BigWigRead<R>/ => BigWigRead
 //@sub /bigwig\s*\.get_interval\(([^()]*)\)\?\s*\.collect::<Result<Vec<_>, _>>\(\)/ => get_interval_vec(bigwig, \1)
 //@sub /Err\(e\) => return Err\(e\.into\(\)\)/ => Err(e) => return Err(e)
-//@sub /f64::MAX/ => f64_max()
-//@sub /f64::MIN/ => f64_min()
-//@sub /f64::NAN/ => f64_nan()
+//@sub /f64::MAX\b/ => f64_max() min=0
+//@sub /f64::MIN_POSITIVE\b/ => fconst_f64_min_positive() min=0
+//@sub /f64::INFINITY\b/ => fconst_f64_infinity() min=0
+//@sub /f64::NEG_INFINITY\b/ => fconst_f64_neg_infinity() min=0
+//@sub /f64::EPSILON\b/ => fconst_f64_epsilon() min=0
+//@sub /f64::MIN\b(?!_)/ => f64_min() min=0
+//@sub /f64::NAN\b/ => f64_nan() min=0
 //@ret r
 //@sig
     requires
